@@ -8,3 +8,5 @@
 (declare-fun t_inst (Int) Int)
 (declare-fun t_utc (Int) Bool)
 (declare-fun time_fmt_utc (Int Str) Str)
+; equality of two public keys as decided by the key's own Equals (uninterpreted)
+(declare-fun pk_equal_s (Iface Iface) Bool)
